@@ -143,8 +143,11 @@ class LowerDimExpr:
         return result_value
 
     def _lower_factor(self, factor: DimFactorWithPower) -> ir.Value:
-        if str(factor) in self.compute_cache:
-            return self.compute_cache[str(factor)]
+        # Namespaced keys: a (factor, power) pair and a (term, coefficient) pair both
+        # print as "(B, 2)" although they mean B**2 and 2*B.
+        factor_key = f"factor:{factor}"
+        if factor_key in self.compute_cache:
+            return self.compute_cache[factor_key]
 
         if factor[0].operation is None:
             var_name = factor[0].var
@@ -171,7 +174,7 @@ class LowerDimExpr:
             )
             self._set_metadata(result_value)
 
-        self.compute_cache[str(factor)] = result_value
+        self.compute_cache[factor_key] = result_value
         return result_value
 
     def _lower_term(self, term: DimTermLike) -> ir.Value:
@@ -198,8 +201,9 @@ class LowerDimExpr:
         return result_value
 
     def _lower_term_with_mult(self, term: DimTermWithCoeff) -> ir.Value:
-        if str(term) in self.compute_cache:
-            return self.compute_cache[str(term)]
+        term_key = f"term_with_coeff:{term}"
+        if term_key in self.compute_cache:
+            return self.compute_cache[term_key]
 
         if term[0].is_constant and str(term[0]) == "":
             result_value = self._get_scalar(term[1])
@@ -217,7 +221,7 @@ class LowerDimExpr:
                 )
                 self._set_metadata(result_value)
 
-        self.compute_cache[str(term)] = result_value
+        self.compute_cache[term_key] = result_value
         return result_value
 
     def _lower_expr(self, expr: DimExprLike | int) -> ir.Value:
